@@ -1,10 +1,17 @@
 #!/bin/sh
 # run the registered quick check of each kept seeded change against a scratch copy with the patch applied
-# usage: tools/seeds_all.sh [PROP-n ...]   (default: all under /verif/seeded)
+# usage: tools/seeds_all.sh [PROP-n ...]   (default: all under /verif/seeded); results are merged into seeds_status.json
 cd /verif
 names="$@"; [ -z "$names" ] && names=$(ls seeded)
 for s in $names; do
   prop=${s%%-*}
   res=$(tools/mut.py $prop --patch seeded/$s/patch.diff quick 2>&1 | grep -E "^MUT:" | tail -1)
   echo "$s: $res"
+  /venv/bin/python - "$s" "$res" <<'PY'
+import json, os, sys
+p = '/verif/seeds_status.json'
+d = json.load(open(p)) if os.path.exists(p) else {}
+d[sys.argv[1]] = 'DETECTED' if 'DETECTED' in sys.argv[2] else ('MISSED' if 'MISSED' in sys.argv[2] else sys.argv[2][:40])
+json.dump(dict(sorted(d.items())), open(p, 'w'), indent=1)
+PY
 done
